@@ -1154,4 +1154,430 @@ theorem C12_syncEntry_is_format (p g : Nat → Bool) (id : Nat) (v : Str) :
     syncEntry p g id v = fillFmt (siteFormat .syncData) [decDigits id, emitLit p g .syncData v] := by
   simp [syncEntry, siteFormat, fillFmt, fillGo, holeLen]
 
+/-! ## F. the chunk, evaluated as JavaScript, assigns every value under its id -/
+
+theorem stripPrefix_append (p r : Str) : stripPrefix p (p ++ r) = some r := by
+  induction p with
+  | nil => cases r <;> rfl
+  | cons c cs ih => simp [stripPrefix, ih]
+
+theorem isDec_decFuel (f n : Nat) : ∀ x ∈ decFuel f n, isDec x = true := by
+  induction f generalizing n with
+  | zero => intro x hx; simp [decFuel] at hx; subst hx; simp [isDec]; omega
+  | succ f ih =>
+    unfold decFuel
+    split
+    · intro x hx; simp at hx; subst hx; simp [isDec]; omega
+    · intro x hx
+      rcases List.mem_append.mp hx with h | h
+      · exact ih _ x h
+      · simp at h; subst h; simp [isDec]; omega
+
+theorem decFuel_ne_nil (f n : Nat) : decFuel f n ≠ [] := by
+  cases f with
+  | zero => simp [decFuel]
+  | succ f => unfold decFuel; split <;> simp
+
+/-- value of a digit string -/
+def digitsVal (a : Nat) (ds : Str) : Nat := ds.foldl (fun a d => a * 10 + (d - 48)) a
+
+theorem digitsVal_decFuel (f : Nat) : ∀ n, n ≤ f → digitsVal 0 (decFuel f n) = n := by
+  induction f with
+  | zero => intro n hn; have : n = 0 := by omega
+            subst this; simp [decFuel, digitsVal]
+  | succ f ih =>
+    intro n hn
+    unfold decFuel
+    split
+    · simp [digitsVal]
+    · next h =>
+      have := ih (n / 10) (by omega)
+      simp only [digitsVal, List.foldl_append, List.foldl_cons, List.foldl_nil] at this ⊢
+      rw [this]; omega
+
+theorem readDigits_append (ds : Str) (hd : ∀ x ∈ ds, isDec x = true) (r : Str) :
+    ∀ a, readDigits a (ds ++ r) = readDigits (digitsVal a ds) r := by
+  induction ds with
+  | nil => intro a; rfl
+  | cons d ds ih =>
+    intro a
+    have h1 : isDec d = true := hd d (by simp)
+    simp only [List.cons_append, readDigits, h1, if_true, digitsVal, List.foldl_cons]
+    exact ih (fun x hx => hd x (by simp [hx])) _
+
+/-- the next character is not a decimal digit -/
+def firstNotDec : Str → Prop
+  | [] => True
+  | x :: _ => isDec x = false
+
+theorem readDigits_stop (a : Nat) (r : Str) (h : firstNotDec r) : readDigits a r = (a, r) := by
+  cases r with
+  | nil => rfl
+  | cons x xs => simp only [firstNotDec] at h; simp [readDigits, h]
+
+/-- a printed `usize` is parsed back -/
+theorem parseNat_decDigits (n : Nat) (r : Str) (h : firstNotDec r) :
+    parseNat (decDigits n ++ r) = some (n, r) := by
+  have hne := decFuel_ne_nil n n
+  have hd := isDec_decFuel n n
+  unfold decDigits
+  cases hds : decFuel n n with
+  | nil => exact absurd hds hne
+  | cons c cs =>
+    have hc : isDec c = true := hd c (by simp [hds])
+    simp only [List.cons_append, parseNat, hc, if_true]
+    have := readDigits_append (c :: cs) (by rw [← hds]; exact hd) r 0
+    simp only [List.cons_append] at this
+    rw [this, ← hds, digitsVal_decFuel n n (Nat.le_refl n), readDigits_stop n r h]
+
+/-- hypotheses under which a string survives `{:?}` → JavaScript (negation of class `nul-octal`) -/
+def Clean (s : Str) : Prop := Scalar s ∧ nulOct s = false
+
+theorem evalStmt_dataStmt (p g : Nat → Bool) (id : Nat) (v : Str) (hv : Clean v) (R : Str)
+    (st : JsState) :
+    evalStmt (dataStmt p g id v ++ R) st
+      = some ({ st with resolved := st.resolved ++ [(id, replaceLt v)] }, R) := by
+  have hshape : dataStmt p g id v ++ R
+      = kResolvedIdx ++ (decDigits id ++ (kIdxEq ++ (rustDebugStr p g (replaceLt v) ++ (59 :: R)))) := by
+    simp [dataStmt, emitLit, siteReplacesLt, List.append_assoc]
+  have hlit := jsStrLit_rustDebugStr p g (replaceLt v) (scalar_replaceLt v hv.1)
+    (nulOct_replaceLt v hv.2) (59 :: R)
+  have hnat := parseNat_decDigits id (kIdxEq ++ (rustDebugStr p g (replaceLt v) ++ (59 :: R)))
+    (by simp [kIdxEq, firstNotDec, isDec])
+  rw [hshape]
+  unfold evalStmt
+  simp only [stripPrefix_append, hnat, hlit]
+  simp [stripPrefix]
+
+theorem dataStmt_cons (p g : Nat → Bool) (id : Nat) (v : Str) (X : Str) :
+    ∃ tl, dataStmt p g id v ++ X = 95 :: tl := by
+  simp [dataStmt, kResolvedIdx]
+
+theorem evalStmts_dataStmts (p g : Nat → Bool) (ready : List (Nat × Str))
+    (h : ∀ r ∈ ready, Clean r.2) (R : Str) :
+    ∀ (f : Nat) (st : JsState), ready.length ≤ f →
+      evalStmts (f + 1) (dataStmts p g ready ++ R) st
+        = evalStmts (f + 1 - ready.length) R
+            { st with resolved := st.resolved ++ ready.map fun r => (r.1, replaceLt r.2) } := by
+  induction ready with
+  | nil => intro f st _; simp [dataStmts]
+  | cons a rest ih =>
+    intro f st hf
+    obtain ⟨id, v⟩ := a
+    simp only [List.length_cons] at hf
+    obtain ⟨f', rfl⟩ : ∃ f', f = f' + 1 := ⟨f - 1, by omega⟩
+    simp only [dataStmts, List.append_assoc]
+    obtain ⟨tl, htl⟩ := dataStmt_cons p g id v (dataStmts p g rest ++ R)
+    have hev := evalStmt_dataStmt p g id v (h (id, v) (by simp)) (dataStmts p g rest ++ R) st
+    rw [htl] at hev ⊢
+    simp only [evalStmts, hev]
+    rw [ih (fun r hr => h r (by simp [hr])) f' _ (by omega)]
+    simp only [List.map_cons, List.append_assoc, List.singleton_append, List.length_cons]
+    congr 1
+    omega
+
+theorem dataStmts_length (p g : Nat → Bool) (ready : List (Nat × Str)) :
+    ready.length ≤ (dataStmts p g ready).length := by
+  induction ready with
+  | nil => simp
+  | cons a rest ih =>
+    obtain ⟨id, v⟩ := a
+    simp only [dataStmts, List.length_append, List.length_cons, dataStmt, kResolvedIdx]
+    omega
+
+/-- **transfer, data chunks**: evaluating a data chunk as JavaScript appends, for every resolved
+value in order, exactly one assignment under the id the server used, whose value is the payload
+with `<` replaced (= the payload itself when it has no `<`) — for all ids, all payloads without
+NUL+octal-digit, every instantiation of the Unicode tables -/
+theorem C12_chunk_transfer_data (p g : Nat → Bool) (ready : List (Nat × Str))
+    (h : ∀ r ∈ ready, Clean r.2) (st : JsState) :
+    evalChunk (asyncChunk p g ready []) st
+      = some { st with resolved := st.resolved ++ ready.map fun r => (r.1, replaceLt r.2) } := by
+  have hlen := dataStmts_length p g ready
+  have := evalStmts_dataStmts p g ready h [] (dataStmts p g ready).length st hlen
+  simp only [List.append_nil] at this
+  simp only [evalChunk, asyncChunk, errStmts, List.append_nil, this]
+  cases hk : (dataStmts p g ready).length + 1 - ready.length <;> simp [evalStmts]
+
+theorem parseErrTuple_body (p g : Nat → Bool) (site : Site) (hsite : siteReplacesLt site = false)
+    (b e : Nat) (m : Str) (hm : Clean m) (R : Str) :
+    parseErrTuple (errTupleBody p g site b e m ++ R) = some ((b, e, m), R) := by
+  have hshape : errTupleBody p g site b e m ++ R
+      = decDigits b ++ ([44, 32] ++ (decDigits e ++ ([44, 32] ++ (rustDebugStr p g m ++ (93 :: R))))) := by
+    simp [errTupleBody, emitLit, hsite, List.append_assoc]
+  have hlit := jsStrLit_rustDebugStr p g m hm.1 hm.2 (93 :: R)
+  have hb := parseNat_decDigits b ([44, 32] ++ (decDigits e ++ ([44, 32] ++ (rustDebugStr p g m ++ (93 :: R)))))
+    (by simp [firstNotDec, isDec])
+  have he := parseNat_decDigits e ([44, 32] ++ (rustDebugStr p g m ++ (93 :: R)))
+    (by simp [firstNotDec, isDec])
+  rw [hshape]
+  unfold parseErrTuple
+  simp only [hb, stripPrefix_append, he, hlit]
+  simp [stripPrefix]
+
+theorem evalStmt_errPushStmt (p g : Nat → Bool) (b e : Nat) (m : Str) (hm : Clean m) (R : Str)
+    (st : JsState) :
+    evalStmt (errPushStmt p g b e m ++ R) st
+      = some ({ st with errors := st.errors ++ [(b, e, m)] }, R) := by
+  have hshape : errPushStmt p g b e m ++ R
+      = kErrorsPush ++ (errTupleBody p g .asyncError b e m ++ (41 :: 59 :: R)) := by
+    simp [errPushStmt, List.append_assoc]
+  have hno : ∀ X, stripPrefix kResolvedIdx (kErrorsPush ++ X) = none := by
+    intro X; simp [stripPrefix, kResolvedIdx, kErrorsPush]
+  have ht := parseErrTuple_body p g .asyncError rfl b e m hm (41 :: 59 :: R)
+  rw [hshape]
+  unfold evalStmt
+  simp only [hno, stripPrefix_append, ht]
+  simp [stripPrefix]
+
+theorem errPushStmt_cons (p g : Nat → Bool) (b e : Nat) (m : Str) (X : Str) :
+    ∃ tl, errPushStmt p g b e m ++ X = 95 :: tl := by
+  simp [errPushStmt, kErrorsPush]
+
+/-- all messages survive `{:?}` → JavaScript -/
+def ErrsClean (errs : List ErrRec) : Prop := ∀ r ∈ errs, Clean r.2.2
+
+theorem evalStmts_errStmts (p g : Nat → Bool) (errs : List ErrRec) (h : ErrsClean errs) (R : Str) :
+    ∀ (f : Nat) (st : JsState), errs.length ≤ f →
+      evalStmts (f + 1) (errStmts p g errs ++ R) st
+        = evalStmts (f + 1 - errs.length) R { st with errors := st.errors ++ errs } := by
+  induction errs with
+  | nil => intro f st _; simp [errStmts]
+  | cons a rest ih =>
+    intro f st hf
+    obtain ⟨b, e, m⟩ := a
+    simp only [List.length_cons] at hf
+    obtain ⟨f', rfl⟩ : ∃ f', f = f' + 1 := ⟨f - 1, by omega⟩
+    simp only [errStmts, List.append_assoc]
+    obtain ⟨tl, htl⟩ := errPushStmt_cons p g b e m (errStmts p g rest ++ R)
+    have hev := evalStmt_errPushStmt p g b e m (h (b, e, m) (by simp)) (errStmts p g rest ++ R) st
+    rw [htl] at hev ⊢
+    simp only [evalStmts, hev]
+    rw [ih (fun r hr => h r (by simp [hr])) f' _ (by omega)]
+    simp only [List.append_assoc, List.singleton_append, List.length_cons]
+    congr 1
+    omega
+
+theorem errStmts_length (p g : Nat → Bool) (errs : List ErrRec) :
+    errs.length ≤ (errStmts p g errs).length := by
+  induction errs with
+  | nil => simp
+  | cons a rest ih =>
+    obtain ⟨b, e, m⟩ := a
+    simp only [errStmts, List.length_append, List.length_cons, errPushStmt, kErrorsPush]
+    omega
+
+/-- **transfer, any chunk of `AsyncDataStream`** (as JavaScript, leaving the HTML tokenizer to
+`C12_script_inert_*`): every resolved value is assigned once under its id, every error is pushed
+once with its boundary id, error id and exact message -/
+theorem C12_chunk_transfer (p g : Nat → Bool) (ready : List (Nat × Str)) (errs : List ErrRec)
+    (h : ∀ r ∈ ready, Clean r.2) (he : ErrsClean errs) (st : JsState) :
+    evalChunk (asyncChunk p g ready errs) st
+      = some { st with resolved := st.resolved ++ ready.map fun r => (r.1, replaceLt r.2),
+                       errors := st.errors ++ errs } := by
+  have h1 := dataStmts_length p g ready
+  have h2 := errStmts_length p g errs
+  have hd := evalStmts_dataStmts p g ready h (errStmts p g errs)
+    ((dataStmts p g ready).length + (errStmts p g errs).length) st (by omega)
+  simp only [evalChunk, asyncChunk, List.length_append, hd]
+  obtain ⟨f, hf⟩ : ∃ f, (dataStmts p g ready).length + (errStmts p g errs).length + 1 - ready.length
+      = f + 1 ∧ errs.length ≤ f :=
+    ⟨(dataStmts p g ready).length + (errStmts p g errs).length - ready.length, by omega, by omega⟩
+  rw [hf.1]
+  have hs := evalStmts_errStmts p g errs he [] f
+    { st with resolved := st.resolved ++ ready.map fun r => (r.1, replaceLt r.2) } hf.2
+  simp only [List.append_nil] at hs
+  rw [hs]
+  cases hk : f + 1 - errs.length <;> simp [evalStmts]
+
+/-! ### the first and the last chunk -/
+
+theorem evalStmts_step (f : Nat) (s : Str) (st st' : JsState) (r : Str) (hne : s ≠ [])
+    (h : evalStmt s st = some (st', r)) : evalStmts (f + 1) s st = evalStmts f r st' := by
+  cases s with
+  | nil => exact absurd rfl hne
+  | cons c cs => simp [evalStmts, h]
+
+theorem parseErrList_errList (p g : Nat → Bool) (errs : List ErrRec) (h : ErrsClean errs) (R : Str) :
+    ∀ f, errs.length < f →
+      parseErrList f (errList p g errs ++ (kCloseList ++ R)) = some (errs, R) := by
+  induction errs with
+  | nil =>
+    intro f hf
+    obtain ⟨f', rfl⟩ : ∃ f', f = f' + 1 := ⟨f - 1, by omega⟩
+    simp [errList, parseErrList, stripPrefix_append]
+  | cons a rest ih =>
+    intro f hf
+    obtain ⟨b, e, m⟩ := a
+    simp only [List.length_cons] at hf
+    obtain ⟨f', rfl⟩ : ∃ f', f = f' + 1 := ⟨f - 1, by omega⟩
+    have hshape : errList p g ((b, e, m) :: rest) ++ (kCloseList ++ R)
+        = 91 :: (errTupleBody p g .initError b e m ++ (44 :: (errList p g rest ++ (kCloseList ++ R)))) := by
+      simp [errList, errTuple, List.append_assoc]
+    have ht := parseErrTuple_body p g .initError rfl b e m (h (b, e, m) (by simp))
+      (44 :: (errList p g rest ++ (kCloseList ++ R)))
+    have ih' := ih (fun r hr => h r (by simp [hr])) f' (by omega)
+    have hno : ∀ X, stripPrefix kCloseList (91 :: X) = none := by
+      intro X; simp [kCloseList, stripPrefix]
+    have h91 : ∀ X, stripPrefix [91] (91 :: X) = some X := by
+      intro X; simp [stripPrefix]
+    have h44 : ∀ X, stripPrefix [44] (44 :: X) = some X := by
+      intro X; simp [stripPrefix]
+    rw [hshape]
+    unfold parseErrList
+    simp only [hno, h91, ht, h44, ih']
+
+theorem decDigits_cons (n : Nat) : ∃ c cs, decDigits n = c :: cs ∧ isDec c = true := by
+  unfold decDigits
+  cases hds : decFuel n n with
+  | nil => exact absurd hds (decFuel_ne_nil n n)
+  | cons c cs => exact ⟨c, cs, rfl, isDec_decFuel n n c (by simp [hds])⟩
+
+theorem parseNumList_numList (ns : List Nat) (R : Str) :
+    ∀ f, ns.length < f → parseNumList f (numList ns ++ (kCloseList ++ R)) = some (ns, R) := by
+  induction ns with
+  | nil =>
+    intro f hf
+    obtain ⟨f', rfl⟩ : ∃ f', f = f' + 1 := ⟨f - 1, by omega⟩
+    simp [numList, parseNumList, stripPrefix_append]
+  | cons n rest ih =>
+    intro f hf
+    simp only [List.length_cons] at hf
+    obtain ⟨f', rfl⟩ : ∃ f', f = f' + 1 := ⟨f - 1, by omega⟩
+    have hshape : numList (n :: rest) ++ (kCloseList ++ R)
+        = decDigits n ++ (44 :: (numList rest ++ (kCloseList ++ R))) := by
+      simp [numList, List.append_assoc]
+    obtain ⟨c, cs, hc, hdec⟩ := decDigits_cons n
+    have hnat := parseNat_decDigits n (44 :: (numList rest ++ (kCloseList ++ R)))
+      (by simp [firstNotDec, isDec])
+    have hno : stripPrefix kCloseList (decDigits n ++ (44 :: (numList rest ++ (kCloseList ++ R)))) = none := by
+      rw [hc]
+      have : (93 : Nat) ≠ c := by
+        intro h; subst h; simp [isDec] at hdec
+      simp [kCloseList, stripPrefix, this]
+    have ih' := ih f' (by omega)
+    rw [hshape]
+    unfold parseNumList
+    simp only [hno, hnat]
+    simp [stripPrefix, ih']
+
+theorem errList_length (p g : Nat → Bool) (errs : List ErrRec) :
+    errs.length ≤ (errList p g errs).length := by
+  induction errs with
+  | nil => simp
+  | cons a rest ih =>
+    obtain ⟨b, e, m⟩ := a
+    simp only [errList, errTuple, List.length_append, List.length_cons]
+    omega
+
+theorem numList_length (ns : List Nat) : ns.length ≤ (numList ns).length := by
+  induction ns with
+  | nil => simp
+  | cons n rest ih =>
+    simp only [numList, List.length_append, List.length_cons]
+    omega
+
+/-- **transfer, first chunk** (with the sync buffer empty, as it always is): it resets the
+resolved array, and the client finds exactly the registered errors and the pending ids -/
+theorem C12_initial_chunk_transfer (p g : Nat → Bool) (errs : List ErrRec) (pend : List Nat)
+    (he : ErrsClean errs) (st : JsState) :
+    evalChunk (initialChunk p g [] errs pend) st
+      = some { resolved := [], errors := errs, pending := pend, incomplete := st.incomplete } := by
+  -- the four statements
+  let s4 : Str := kResolvers
+  let s3 : Str := kPendingInit ++ (numList pend ++ (kCloseList ++ s4))
+  let s2 : Str := kErrorsInit ++ (errList p g errs ++ (kCloseList ++ s3))
+  have hshape : initialChunk p g [] errs pend = kResolvedInit ++ (kCloseList ++ s2) := by
+    simp [initialChunk, syncList, s2, s3, s4, List.append_assoc]
+  have e1 : evalStmt (kResolvedInit ++ (kCloseList ++ s2)) st = some ({ st with resolved := [] }, s2) := by
+    unfold evalStmt
+    have h1 : ∀ X, stripPrefix kResolvedIdx (kResolvedInit ++ X) = none := by
+      intro X; simp [stripPrefix, kResolvedIdx, kResolvedInit]
+    have h2 : ∀ X, stripPrefix kErrorsPush (kResolvedInit ++ X) = none := by
+      intro X; simp [stripPrefix, kErrorsPush, kResolvedInit]
+    simp only [h1, h2, stripPrefix_append]
+  have e2 : ∀ st : JsState, evalStmt s2 st = some ({ st with errors := errs }, s3) := by
+    intro st
+    unfold evalStmt
+    have h1 : ∀ X, stripPrefix kResolvedIdx (kErrorsInit ++ X) = none := by
+      intro X; simp [stripPrefix, kResolvedIdx, kErrorsInit]
+    have h2 : ∀ X, stripPrefix kErrorsPush (kErrorsInit ++ X) = none := by
+      intro X; simp [stripPrefix, kErrorsPush, kErrorsInit]
+    have h3 : ∀ X, stripPrefix kResolvedInit (kErrorsInit ++ X) = none := by
+      intro X; simp [stripPrefix, kResolvedInit, kErrorsInit]
+    have hp := parseErrList_errList p g errs he s3
+      ((errList p g errs ++ (kCloseList ++ s3)).length + 1)
+      (by have := errList_length p g errs; simp only [List.length_append]; omega)
+    simp only [s2, h1, h2, h3, stripPrefix_append, hp]
+  have e3 : ∀ st : JsState, evalStmt s3 st = some ({ st with pending := pend }, s4) := by
+    intro st
+    unfold evalStmt
+    have h1 : ∀ X, stripPrefix kResolvedIdx (kPendingInit ++ X) = none := by
+      intro X; simp [stripPrefix, kResolvedIdx, kPendingInit]
+    have h2 : ∀ X, stripPrefix kErrorsPush (kPendingInit ++ X) = none := by
+      intro X; simp [stripPrefix, kErrorsPush, kPendingInit]
+    have h3 : ∀ X, stripPrefix kResolvedInit (kPendingInit ++ X) = none := by
+      intro X; simp [stripPrefix, kResolvedInit, kPendingInit]
+    have h4 : ∀ X, stripPrefix kErrorsInit (kPendingInit ++ X) = none := by
+      intro X; simp [stripPrefix, kErrorsInit, kPendingInit]
+    have hp := parseNumList_numList pend s4
+      ((numList pend ++ (kCloseList ++ s4)).length + 1)
+      (by have := numList_length pend; simp only [List.length_append]; omega)
+    simp only [s3, h1, h2, h3, h4, stripPrefix_append, hp]
+  have e4 : ∀ st : JsState, evalStmt s4 st = some (st, []) := by
+    intro st; simp [s4, evalStmt, stripPrefix, kResolvers, kResolvedIdx, kErrorsPush, kResolvedInit,
+      kErrorsInit, kPendingInit]
+  have hlen : ∃ f, (initialChunk p g [] errs pend).length + 1 = f + 4 := by
+    refine ⟨(initialChunk p g [] errs pend).length - 3, ?_⟩
+    have : 22 ≤ (initialChunk p g [] errs pend).length := by
+      rw [hshape]; simp [kResolvedInit]
+    omega
+  obtain ⟨f, hf⟩ := hlen
+  unfold evalChunk
+  rw [hf, hshape]
+  rw [evalStmts_step (f + 3) _ st _ _ (by simp [kResolvedInit]) e1]
+  rw [evalStmts_step (f + 2) s2 _ _ _ (by simp [s2, kErrorsInit]) (e2 _)]
+  rw [evalStmts_step (f + 1) s3 _ _ _ (by simp [s3, kPendingInit]) (e3 _)]
+  rw [evalStmts_step f s4 _ _ _ (by simp [s4, kResolvers]) (e4 _)]
+  simp [evalStmts]
+
+/-- **transfer, last chunk**: the client finds exactly the incomplete-chunk ids -/
+theorem C12_incomplete_chunk_transfer (ids : List Nat) (st : JsState) :
+    evalChunk (incompleteChunk ids) st = some { st with incomplete := ids } := by
+  have hshape : incompleteChunk ids = kIncompleteInit ++ (numList ids ++ (kCloseList ++ [])) := by
+    simp [incompleteChunk, List.append_assoc]
+  have e : evalStmt (kIncompleteInit ++ (numList ids ++ (kCloseList ++ []))) st
+      = some ({ st with incomplete := ids }, []) := by
+    unfold evalStmt
+    have h1 : ∀ X, stripPrefix kResolvedIdx (kIncompleteInit ++ X) = none := by
+      intro X; simp [stripPrefix, kResolvedIdx, kIncompleteInit]
+    have h2 : ∀ X, stripPrefix kErrorsPush (kIncompleteInit ++ X) = none := by
+      intro X; simp [stripPrefix, kErrorsPush, kIncompleteInit]
+    have h3 : ∀ X, stripPrefix kResolvedInit (kIncompleteInit ++ X) = none := by
+      intro X; simp [stripPrefix, kResolvedInit, kIncompleteInit]
+    have h4 : ∀ X, stripPrefix kErrorsInit (kIncompleteInit ++ X) = none := by
+      intro X; simp [stripPrefix, kErrorsInit, kIncompleteInit]
+    have h5 : ∀ X, stripPrefix kPendingInit (kIncompleteInit ++ X) = none := by
+      intro X; simp [stripPrefix, kPendingInit, kIncompleteInit]
+    have h6 : ∀ X, stripPrefix kResolvers (kIncompleteInit ++ X) = none := by
+      intro X; simp [stripPrefix, kResolvers, kIncompleteInit]
+    have hp := parseNumList_numList ids []
+      ((numList ids ++ (kCloseList ++ [])).length + 1)
+      (by have := numList_length ids; simp only [List.length_append]; omega)
+    simp only [h1, h2, h3, h4, h5, h6, stripPrefix_append, hp]
+  unfold evalChunk
+  rw [hshape, evalStmts_step _ _ st _ _ (by simp [kIncompleteInit]) e]
+  cases (kIncompleteInit ++ (numList ids ++ (kCloseList ++ []))).length <;> simp [evalStmts]
+
+/-- the client then reads each id's value (ids distinct: last assignment = only assignment) -/
+theorem C12_read_back_single (p g : Nat → Bool) (id : Nat) (v : Str) (hv : Clean v)
+    (hl : hasLt v = false) :
+    (evalChunk (asyncChunk p g [(id, v)] []) JsState.empty).bind (fun st => st.read id) = some v := by
+  rw [C12_chunk_transfer_data p g [(id, v)] (by intro r hr; simp at hr; subst hr; exact hv)]
+  simp [JsState.empty, JsState.read, replaceLt_noLt v hl]
+
+example : Clean [0, 56, 34, 92, 8232] := by
+  refine ⟨?_, by decide⟩
+  intro c hc; simp at hc; omega
+
 end Leptos.Transfer
